@@ -1307,6 +1307,66 @@ fn main() {
     lean.push_str("]\n\nend Rip.Gen.SeqAccounting\n");
     write_if_changed(&out.join("SeqAccounting.lean"), &lean);
 
+    // authority recovery (C18): in `acquire_authority_lock_with_recovery` (ripd/src/server.rs), whose
+    // liveness is checked and whose files the stale cleanup is asked to remove
+    {
+        struct Args {
+            liveness: Vec<String>,
+            cleanup_pid: Vec<String>,
+        }
+        impl<'ast> Visit<'ast> for Args {
+            fn visit_expr_call(&mut self, c: &'ast syn::ExprCall) {
+                if let syn::Expr::Path(p) = &*c.func {
+                    let name = p.path.segments.last().map(|s| s.ident.to_string()).unwrap_or_default();
+                    if name == "pid_liveness" {
+                        if let Some(a) = c.args.first() {
+                            self.liveness.push(squash(a));
+                        }
+                    }
+                    if name == "try_cleanup_stale_authority_files" {
+                        if let Some(a) = c.args.iter().nth(1) {
+                            self.cleanup_pid.push(squash(a));
+                        }
+                    }
+                }
+                syn::visit::visit_expr_call(self, c);
+            }
+        }
+        let mut lean = String::new();
+        lean.push_str("/- GENERATED by ripx from ripd/src/server.rs. Do not edit. -/\nnamespace Rip.Gen.AuthRecovery\n\n");
+        match load("crates/ripd/src/server.rs", &mut parsed) {
+            Err(e) => {
+                eprintln!("ripx: {e}");
+                std::process::exit(1);
+            }
+            Ok(()) => {
+                let mut finder = FnFinder { want_type: None, want_fn: "acquire_authority_lock_with_recovery", cur_type: None, found: None };
+                finder.visit_file(&parsed["crates/ripd/src/server.rs"]);
+                let mut a = Args { liveness: Vec::new(), cleanup_pid: Vec::new() };
+                match finder.found {
+                    None => {
+                        eprintln!("ripx: server.rs: acquire_authority_lock_with_recovery not found");
+                        std::process::exit(1);
+                    }
+                    Some(block) => a.visit_block(&block),
+                }
+                lean.push_str(&format!(
+                    "/-- FNV-1a 64 of the argument expression of every `pid_liveness(…)` call in the recovery loop: {} -/\ndef livenessOf : List Nat := [{}]\n\n",
+                    a.liveness.join(", "),
+                    a.liveness.iter().map(|x| fnv64(x.as_bytes()).to_string()).collect::<Vec<_>>().join(", ")
+                ));
+                lean.push_str(&format!(
+                    "/-- …and of the expected-pid argument of every `try_cleanup_stale_authority_files(…)` call: {} -/\ndef cleanupExpects : List Nat := [{}]\n\n",
+                    a.cleanup_pid.join(", "),
+                    a.cleanup_pid.iter().map(|x| fnv64(x.as_bytes()).to_string()).collect::<Vec<_>>().join(", ")
+                ));
+                lean.push_str(&format!("/-- FNV-1a 64 of `lock.pid` (the pid recorded in the lock file that was just read) -/\ndef lockPid : Nat := {}\n\n", fnv64(b"lock.pid")));
+            }
+        }
+        lean.push_str("end Rip.Gen.AuthRecovery\n");
+        write_if_changed(&out.join("AuthRecovery.lean"), &lean);
+    }
+
     if let Some(p) = json_out {
         let v: Value = json!({
             "orders": orders.iter().map(|(id, p, e)| json!({"id": id, "fn": p, "effects": e.iter().map(eff_lean).collect::<Vec<_>>()})).collect::<Vec<_>>(),
